@@ -171,7 +171,7 @@ def turn_oracle(case, tc, to, earlier=()):
     # ... ending at the first rail that does not let the message through (reject, or a failing rail - C03)
     stop = None
     for p, rid in enumerate(cfg_in):
-        if G.verdict_of(tc, "in", rid) in ("r", "f"):
+        if G.verdict_of(tc, "in", rid) in ("r", "f", "x"):  # "x": the rail's own LLM call failed - the rail has not approved the message
             stop = p
             break
     expected = len(cfg_in) if stop is None else stop + 1
@@ -195,6 +195,9 @@ def turn_oracle(case, tc, to, earlier=()):
                 return f"[reject-reply] rejected message: expected the InputRailException, got {rep}"
         elif not (rep["role"] == "assistant" and (G.reply_text(rep) == G.REFUSAL or (retr_failed and G.reply_text(rep) == G.INTERNAL_ERROR))):
             return f"[reject-reply] rejected message: expected the refusal, got {rep}"
+    if stop is not None and G.verdict_of(tc, "in", cfg_in[stop]) == "x" and gen:
+        # the rail's own LLM call failed: the rail has not let the message through, yet the call went on with it
+        return f"[llm-after-unapproved] the LLM call of input rail {cfg_in[stop]} failed (the message was not approved) but {steps[gen[0]][:2]} ran"
     # what each rail / later stage is shown
     cur = tc["user"]
     rewritten = False
